@@ -56,38 +56,39 @@ def _inline_block(stmts, fn):
   while changed:
     changed = False
     for i in range(len(stmts) - 1):
-      st, nxt = stmts[i], stmts[i + 1]
+      st = stmts[i]
       if not (isinstance(st, ast.Assign) and len(st.targets) == 1 and isinstance(st.targets[0], ast.Name) and _simple_value(st.value)):
         continue
       name = st.targets[0].id
       if len(_stores(fn, name)) != 1 or len(_loads(fn, name)) != 1:
         continue
-      if isinstance(nxt, (ast.FunctionDef, ast.ClassDef, ast.For, ast.While, ast.With, ast.Try)):
-        # the single read may sit in the header expression of a compound statement
-        hdr = {ast.For: 'iter', ast.While: 'test', ast.With: None, ast.Try: None}.get(type(nxt))
-        if hdr is None or isinstance(nxt, ast.While) or len(_loads(getattr(nxt, hdr), name)) != 1:
-          continue
-        sub = _Subst(name, st.value)
-        setattr(nxt, hdr, sub.visit(getattr(nxt, hdr)))
-        if sub.done == 1:
-          del stmts[i]
-          changed = True
+      # the reader is the next statement, or a later one when only simple assignments that neither read the temporary nor
+      # rebind one of its inputs lie in between (two temporaries bound one after the other)
+      reads = {n.id for n in ast.walk(st.value) if isinstance(n, ast.Name)} | {name}
+      j = i + 1
+      while j < len(stmts) and not _loads(stmts[j], name):
+        mid = stmts[j]
+        if not (isinstance(mid, ast.Assign) and len(mid.targets) == 1 and isinstance(mid.targets[0], ast.Name) and _simple_value(mid.value) and mid.targets[0].id not in reads):
           break
+        j += 1
+      if j >= len(stmts) or not _loads(stmts[j], name):
         continue
-      if isinstance(nxt, ast.If):
-        if len(_loads(nxt.test, name)) != 1:
-          continue
-        sub = _Subst(name, st.value)
-        nxt.test = sub.visit(nxt.test)
-        if sub.done == 1:
-          del stmts[i]
-          changed = True
-          break
+      nxt = stmts[j]
+      if isinstance(nxt, (ast.FunctionDef, ast.AsyncFunctionDef, ast.ClassDef, ast.While, ast.With, ast.Try)):
         continue
-      if len(_loads(nxt, name)) != 1:
-        continue
+      if isinstance(nxt, ast.For):
+        where, attr = nxt, 'iter'
+      elif isinstance(nxt, ast.If):
+        where, attr = nxt, 'test'
+      else:
+        where, attr = None, None
       sub = _Subst(name, st.value)
-      stmts[i + 1] = sub.visit(nxt)
+      if where is not None:
+        if len(_loads(getattr(where, attr), name)) != 1:
+          continue
+        setattr(where, attr, sub.visit(getattr(where, attr)))
+      else:
+        stmts[j] = sub.visit(nxt)
       if sub.done == 1:
         del stmts[i]
         changed = True
@@ -98,7 +99,7 @@ def _inline_block(stmts, fn):
       continue
     for field in ('body', 'orelse', 'finalbody'):
       blk = getattr(st, field, None)
-      if isinstance(blk, list) and blk and isinstance(blk[0], ast.stmt) and not isinstance(st, (ast.FunctionDef, ast.ClassDef)):
+      if isinstance(blk, list) and blk and isinstance(blk[0], ast.stmt) and not isinstance(st, ast.ClassDef):
         _inline_block(blk, fn)
     if isinstance(st, ast.Try):
       for h in st.handlers:
